@@ -829,6 +829,34 @@ def funds_matrix(rng, tier):
     return cases
 
 
+def provide_matrix(rng, tier):
+    """asset listings of a provision: every combination of {asset0, asset1, a foreign native, a foreign token} in the
+    two slots x attached funds {none, exactly what the listed natives declare, only the first} x receiver, per pair
+    kind, on pairs with liquidity (C05: exactly the declared deposits are pulled; malformed listings are rejected)"""
+    cases = []
+    for rep in range({"quick": 1, "thorough": 3}[tier]):
+        h = Hist(3, 3, 3, 3, 10 ** 12, 1000, [6, 6, 6], "directed-matrix", "C05 provision listing matrix")
+        created = setup_pairs(h, rng, [(("n", 0), ("n", 1)), (("n", 0), ("t", 2)), (("t", 2), ("t", 3))],
+                              comm=3 * 10 ** 15, scale=10 ** 7)
+        u = USER0 + 1
+        for p in created:
+            a0, a1 = h.pair_assets(p)
+            r0, r1 = h.reserves(p)
+            d0 = max(1, r0 // 20)
+            d1 = max(1, d0 * r1 // max(1, r0))
+            slots = [a0, a1, ("n", 2), ("t", 4)]
+            for l0 in slots:
+                for l1 in slots:
+                    n0 = d0 if l0 == a0 else d1 if l0 == a1 else d0
+                    n1 = d1 if l1 == a1 else d0 if l1 == a0 else d1
+                    fexact = funds_for([(l0, n0)] + ([(l1, n1)] if l1 != l0 else []))
+                    for funds in ([], fexact, fexact[:1]):
+                        for rcv in (None, h.users()[-1]):
+                            h.do(("provide", p, u, funds, l0, n0, l1, n1, None, rcv))
+        cases.append(h.finish())
+    return cases
+
+
 def swap_matrix(rng, tier):
     """delivered asset x named asset x named amount x funds x receiver, per pair kind (C02)"""
     cases = []
